@@ -353,3 +353,136 @@ func sortedKeys[V any](m map[string]V) []string {
 	sort.Strings(ks)
 	return ks
 }
+
+// Reach returns root, its nested closures, and the functions of the same
+// package it reaches through static calls (transitively), in a stable order.
+// Rules that speak about "what function F does" use this region instead of
+// F's body alone, so that extracting part of F into a helper does not hide it.
+func (p *Program) Reach(roots ...*ssa.Function) []*ssa.Function {
+	seen := map[*ssa.Function]bool{}
+	var out []*ssa.Function
+	var work []*ssa.Function
+	for _, r := range roots {
+		if r != nil && !seen[r] {
+			seen[r] = true
+			work = append(work, r)
+		}
+	}
+	pkgs := map[string]bool{}
+	for _, r := range roots {
+		if r != nil {
+			pkgs[pkgOf(r)] = true
+		}
+	}
+	for len(work) > 0 {
+		fn := work[0]
+		work = work[1:]
+		out = append(out, fn)
+		add := func(g *ssa.Function) {
+			if g != nil && !seen[g] && g.Blocks != nil && pkgs[pkgOf(g)] {
+				seen[g] = true
+				work = append(work, g)
+			}
+		}
+		for _, an := range fn.AnonFuncs {
+			add(an)
+		}
+		for _, b := range fn.Blocks {
+			for _, ins := range b.Instrs {
+				if ci, ok := ins.(ssa.CallInstruction); ok {
+					add(ci.Common().StaticCallee())
+				}
+			}
+		}
+	}
+	return out
+}
+
+// PrivateRegion returns the roots, their closures, and the unexported
+// same-package functions that are called only from inside the region (their
+// private helpers). Used for "only these operations may ..." rules.
+func (p *Program) PrivateRegion(roots ...*ssa.Function) map[*ssa.Function]bool {
+	region := map[*ssa.Function]bool{}
+	for _, r := range roots {
+		if r != nil {
+			region[r] = true
+		}
+	}
+	ci := getCallIndex(p)
+	for changed := true; changed; {
+		changed = false
+		for fn := range region {
+			for _, an := range fn.AnonFuncs {
+				if !region[an] {
+					region[an] = true
+					changed = true
+				}
+			}
+			for _, b := range fn.Blocks {
+				for _, ins := range b.Instrs {
+					c, ok := ins.(ssa.CallInstruction)
+					if !ok {
+						continue
+					}
+					g := c.Common().StaticCallee()
+					if g == nil || region[g] || g.Blocks == nil || pkgOf(g) != pkgOf(fn) || g.Parent() != nil {
+						continue
+					}
+					if isExportedEntry(g) || ci.usedAsVal[g] {
+						continue
+					}
+					private := true
+					for _, s := range ci.sites[g] {
+						top := s.caller
+						if !region[top] {
+							private = false
+						}
+					}
+					if private {
+						region[g] = true
+						changed = true
+					}
+				}
+			}
+		}
+	}
+	return region
+}
+
+// bodyOf returns the syntax body of an SSA function (FuncDecl or FuncLit).
+func bodyOf(fn *ssa.Function) (ast.Node, *types.Info) {
+	if fn == nil || fn.Syntax() == nil {
+		return nil, nil
+	}
+	var info *types.Info
+	top := fn
+	for top.Parent() != nil {
+		top = top.Parent()
+	}
+	_ = top
+	switch s := fn.Syntax().(type) {
+	case *ast.FuncDecl:
+		return s.Body, info
+	case *ast.FuncLit:
+		return s.Body, info
+	}
+	return nil, info
+}
+
+// regionBodies returns the syntax bodies (with their type info) of the region reached from the named function.
+func (p *Program) regionBodies(pkgrel, recv, name string) (bodies []ast.Node, info *types.Info, root *ssa.Function) {
+	root = p.Fn(pkgrel, recv, name)
+	if root == nil {
+		return nil, nil, nil
+	}
+	pk := p.Pkgs[pkgrel]
+	for _, fn := range p.Reach(root) {
+		if fn.Parent() != nil {
+			continue // closures are inside their parent's body
+		}
+		if b, _ := bodyOf(fn); b != nil {
+			bodies = append(bodies, b)
+		}
+	}
+	return bodies, pk.TypesInfo, root
+}
